@@ -28,17 +28,26 @@ PROP = "C14"
 PROP_FILE = "C14_TPE"
 THEOREMS = ['c14_views', 'c14_decision_reauthorize', 'c14_reauthorize_concrete', 'c14_decision_concrete',
             'c14_query_exact', 'c14_query_brute', 'c14_query_action_label', 'c14_query_action_complete',
-            'c14_interp_sound_partial']
+            'c14_and_false_needs_noerr', 'c14_interp_sound_partial', 'c14_residual_of_typed_expr',
+            'c14_policy_sound_partial', 'c14_decision_sound_partial', 'c14_reauthorize_sound_partial',
+            'c14_query_sound_partial', 'c14_noerr_from_typing_partial']
 
 MANIFEST = {
     "text": "Gallina model of the type-aware partial evaluator (tpe/evaluator.rs interpret arm by arm, residual.rs "
-            "can_error_assuming_well_formed and From<Residual> for Expr, response.rs decision table and views, api/tpe.rs "
-            "permission queries); theorems on the model for all inputs (props/C14_TPE.v); tied to /repo by differential "
-            "execution of the extracted model against PolicySet::tpe on schema-directed well-typed policy sets, partial "
-            "requests / partial stores derived from conformant data, and several consistent completions per case, plus an "
-            "implementation-level oracle (residual vs original outcome on every completion, definite decision vs from-scratch "
-            "authorization, agreement of the four views, reauthorize vs from-scratch, queries vs brute force).",
+            "can_error_assuming_well_formed, try_from_typed_expr and From<Residual> for Expr, response.rs decision table and "
+            "views, api/tpe.rs permission queries; extension library = the full table of ExtParse.v); theorems for all inputs "
+            "(props/C14_TPE.v): the four views agree, a definite decision is the reauthorization decision everywhere, every "
+            "arm of interpret preserves the value-or-error outcome under Completes and the visible side condition Side "
+            "(c14_interp_sound_partial), hence per-policy, decision, reauthorize and query soundness against the ORIGINAL "
+            "policies (c14_*_sound_partial); tied to /repo by differential execution of the extracted model against "
+            "PolicySet::tpe on schema-directed well-typed policy sets, partial requests / partial stores derived from "
+            "conformant data and several consistent and inconsistent completions per case, plus an implementation-level "
+            "oracle (residual vs original outcome on every completion, definite decision vs from-scratch authorization, "
+            "agreement of the four views, reauthorize vs from-scratch, queries vs brute force).",
     "technique": "proof (Coq) + correspondence by differential execution + metamorphic oracle (completions, views, brute force)",
+    "note": "Side (operands of && / || are booleans, a left operand with can_error = false does not error) is a hypothesis of "
+            "the *_partial theorems; c14_noerr_from_typing_partial derives its ingredients from C03's typechecker soundness on "
+            "C03's fragment only.",
 }
 
 KEY_FA = "C14:policy_set_returns_original_policies"
@@ -429,6 +438,10 @@ def make_world(rng, targeted):
 
 
 def tpe_case(rng, w, n_alt=3, n_bad=2):
+    n_alt, n_bad = tpe_case.n_alt, tpe_case.n_bad
+    if tpe_case.n_bad == 1:               # quick tier: an inconsistent completion on every other case
+        tpe_case.flip = not getattr(tpe_case, "flip", False)
+        n_bad = 1 if tpe_case.flip else 0
     r = rng
     meta = partialise(r, w)
     comps = [(w.q, w.es, "orig")]
@@ -445,6 +458,9 @@ def tpe_case(rng, w, n_alt=3, n_bad=2):
            "completions": [completion_json(q2, es2) for q2, es2, _ in comps]}
     return {"cmd": cmd, "kinds": [k for _, _, k in comps], "consistent": cons, "world": w, "meta": meta,
             "comps": comps}
+
+
+tpe_case.n_alt, tpe_case.n_bad = 3, 2
 
 
 def view_map(v):
@@ -676,24 +692,28 @@ def run(rep, tier, seed):
     harness = fw.build_harness()
     driver = fw.build_model_driver()
     rng = random.Random(seed)
-    n_t, n_r = (700, 900) if tier == "quick" else (12000, 16000)
+    n_t, n_r = (180, 220) if tier == "quick" else (12000, 16000)
+    # quick: 400 tpe cases x (original + 2 alternative + 1 inconsistent completion), 100 + 50 queries (~3 min CPU);
+    # thorough: 28000 cases x (1 + 3 + 2)
+    tpe_case.n_alt, tpe_case.n_bad = (2, 1) if tier == "quick" else (3, 2)
+    q_every, a_every = (4, 8) if tier == "quick" else (4, 6)
     stats = new_stats()
     cases, qcmds, acases = [], [], []
     for i in range(n_t):
         w = make_world(rng, True)
         cases.append(tpe_case(rng, w))
-        if i % 4 == 0:
+        if i % q_every == 0:
             qcmds.append(query_case(rng, w, rng.choice(["resource", "principal"])))
-        if i % 6 == 0:
+        if i % a_every == 0:
             acases.append(action_query_case(rng, w))
     for i in range(n_r):
         if i % 12 == 0:
             make_world.sg = tgen.gen_schema(rng)
         w = make_world(rng, False)
         cases.append(tpe_case(rng, w))
-        if i % 4 == 0:
+        if i % q_every == 0:
             qcmds.append(query_case(rng, w, rng.choice(["resource", "principal"])))
-        if i % 6 == 0:
+        if i % a_every == 0:
             acases.append(action_query_case(rng, w))
     res = fw.run_rust(harness, [c["cmd"] for c in cases])
     nviol = 0
